@@ -65,6 +65,10 @@ let init () =
   register "join_poly_hyp" (function
     | w :: dx :: dy :: rest -> b_out (Join.poly_hyps (pts_in rest) (z_in w) (pt dx dy))
     | _ -> "BAD-ARGS");
+  register "join_tri_hyp" (function
+    | [w; al; dx; dy; a; b; c; d; e; f] ->
+        b_out (JoinTri.tri_hyps ((pt a b, pt c d), pt e f) (z_in w) (al_in al) (pt dx dy))
+    | _ -> "BAD-ARGS");
   (* ---- hook level ---- *)
   register "joinh_extents" (function
     | [a; b; c; d; w; so] ->
